@@ -213,5 +213,11 @@ Theorem code_decodeZeroToOne : forall b, wf_bytes b ->
 Proof. exact GenEqNum.go_decodeZeroToOne_eq. Qed.
 Print Assumptions code_decodeZeroToOne.
 
+Theorem code_quantize_untouched : forall hires f,
+  (negb hires && fle F32 cm128 f && flt F32 f c128) = false ->
+  go_encode_Encoder_quantize hires f = f /\ quantize hires f = f.
+Proof. exact GenEqNum.go_quantize_untouched. Qed.
+Print Assumptions code_quantize_untouched.
+
 Example ex_code_natural : go_encode_buffer_encodeNatural [] 300 = [177; 4] /\ go_decode_buffer_decodeNatural [177; 4] = (300, 2).
 Proof. vm_compute. split; reflexivity. Qed.
